@@ -108,7 +108,6 @@ class _NoSubproc:
 GLOBAL_CALLS = {
     "g:pids": lambda ps, p, impl: ps.pids(),
     "g:pid_exists": lambda ps, p, impl: [ps.pid_exists(q) for q in (p.pid, 5, 7, 9, 11)],
-    "g:wait_procs": lambda ps, p, impl: ps.wait_procs([p] + impl.objs[:2], timeout=0),
     "g:cpu_percent": lambda ps, p, impl: p.cpu_percent(interval=None),
     "g:memory_info": lambda ps, p, impl: p.memory_info(),
     "g:cmdline": lambda ps, p, impl: p.cmdline(),
@@ -118,7 +117,10 @@ GLOBAL_CALLS = {
     "g:dict_key": lambda ps, p, impl: {q: 1 for q in impl.objs}.get(p),
 }
 # (process_iter(attrs=…) / process_iter.cache_clear() change the sweep cache — C04's subject — and parent()/parents()
-#  shortcut on pids()[0] before the guard — C05's subject: not drawn)
+#  shortcut on pids()[0] before the guard — C05's subject: not drawn.  wait_procs() is NOT the identity either: its
+#  check_gone() runs `proc.is_running()` on every object whose wait() returned None, i.e. it sets the sticky flags and
+#  `_pids_reused` exactly as an explicit is_running() would — found by this family in round 3 (seeds 2, 3, 12345: model
+#  drift only, later process_iter()/str() differ); the model has no arm for it, so it is not drawn)
 GLOBAL_NAMES = sorted(GLOBAL_CALLS)
 
 
